@@ -8,14 +8,17 @@ From Coq Require Import Permutation.
 From Ford Require Import Base.Str Base.Order Out.Names Out.Project Out.ProjectProofs.
 
 (* Full statement: the identifiers (hence page names, anchors and URLs) depend neither on the
-   iteration order of the set of source files (pi) nor on the iteration orders of the sets of
-   objects hashed by id that the run walks (sigma). *)
+   iteration order of the set of source files (pi), nor on the iteration orders of the sets of
+   objects hashed by id that the run walks — the sets that ask for identifiers already assigned
+   (sigma) and the order among requests for different names inside the rank-ordered loops (F1, F2:
+   any two sequences that agree with the project's, key by key).  Well-formedness: one request per
+   entity, distinct paths. *)
 Definition C12_statement : Prop :=
-  forall P pi1 pi2 sigma1 sigma2,
-    NoDup (map f_path (p_files P)) ->
+  forall P pi1 pi2 sigma1 sigma2 F1 F2,
+    consistentb P = true -> NoDup (map f_path (p_files P)) ->
     is_perm pi1 (length (p_files P)) -> is_perm pi2 (length (p_files P)) ->
-    sigma_ok P pi1 sigma1 -> sigma_ok P pi2 sigma2 ->
-    idents P pi1 sigma1 = idents P pi2 sigma2.
+    sigma_ok P pi1 sigma1 -> sigma_ok P pi2 sigma2 -> fixed_ok P F1 -> fixed_ok P F2 ->
+    idents P pi1 sigma1 F1 = idents P pi2 sigma2 F2.
 
 (* MAIN THEOREM: it holds — any number of files, competing names or not *)
 Theorem C12_deterministic : C12_statement.
@@ -30,12 +33,22 @@ Theorem C12_file_order_irrelevant : forall P pi1 pi2,
 Proof. exact sorted_enum_canonical. Qed.
 Print Assumptions C12_file_order_irrelevant.
 
-Theorem C12_set_order_irrelevant : forall P pi sigma1 sigma2,
-  sigma_ok P pi sigma1 -> sigma_ok P pi sigma2 -> idents P pi sigma1 = idents P pi sigma2.
-Proof. exact idset_order_irrelevant. Qed.
+Theorem C12_set_order_irrelevant : forall P pi sigma1 sigma2 F1 F2,
+  consistentb P = true -> is_perm pi (length (p_files P)) ->
+  sigma_ok P pi sigma1 -> sigma_ok P pi sigma2 -> fixed_ok P F1 -> fixed_ok P F2 ->
+  idents P pi sigma1 F1 = idents P pi sigma2 F2.
+Proof. exact set_order_irrelevant. Qed.
 Print Assumptions C12_set_order_irrelevant.
 
-(* the reason for the second half, for any sequence of phases, any enumeration and any state of
+(* the per-key factorisation behind it: the identifier of an entity is decided by the requests for
+   its own (directory, normalised name) alone *)
+Theorem C12_ident_by_key : forall rs r, consistentP rs -> In r rs ->
+  ident_in (fst (run init rs)) (r_id r)
+  = ident_in (fst (run init (filter (has_key (name_key r)) rs))) (r_id r).
+Proof. exact ident_by_key. Qed.
+Print Assumptions C12_ident_by_key.
+
+(* and the reason why the id-set phases do not matter, for any sequence of phases, any enumeration and any state of
    the selector: phases that only ask for what has been asked for leave the selector as it is *)
 Theorem C12_repeated_requests_irrelevant : forall pl enum fixed t1 t2 acc st,
   (forall r, In r acc -> has_item st r) ->
@@ -54,8 +67,8 @@ Proof. exact sorted_is_canonical_gen. Qed.
 Print Assumptions C12_sorted_is_canonical_any_order.
 
 (* ... nor does the place where the project lives matter (all source files below one root) *)
-Theorem C12_location_irrelevant : forall root P pi sigma,
-  idents (relocate root P) pi sigma = idents P pi sigma.
+Theorem C12_location_irrelevant : forall root P pi sigma F,
+  idents (relocate root P) pi sigma F = idents P pi sigma F.
 Proof. exact location_irrelevant. Qed.
 Print Assumptions C12_location_irrelevant.
 
@@ -67,8 +80,10 @@ Theorem C12_former_witnesses_repaired :
   is_perm [1; 0] (length (p_files twins_project)) /\
   idsel twins_project [1; 0] = [[mkr 1 (s "module") (s "m"); mkr 2 (s "module") (s "m")]] /\
   sigma_ok twins_project [1; 0] [[1; 0]] /\ sigma_ok twins_project [0; 1] [[0; 1]] /\
-  idents twins_project [1; 0] [[1; 0]] = idents twins_project [0; 1] [[0; 1]] /\
-  idents twins_project [1; 0] [[1; 0]] =
+  fixed_ok twins_project (p_sets twins_project) /\ consistentb twins_project = true /\
+  idents twins_project [1; 0] [[1; 0]] (p_sets twins_project)
+    = idents twins_project [0; 1] [[0; 1]] (p_sets twins_project) /\
+  idents twins_project [1; 0] [[1; 0]] (p_sets twins_project) =
     [(3, Some (s "x")); (1, Some (s "m")); (4, Some (s "x~2")); (2, Some (s "m~2")); (5, Some (s "t"))].
 Proof. exact twins_project_ok. Qed.
 Print Assumptions C12_former_witnesses_repaired.
@@ -134,6 +149,23 @@ Definition C12_child_edges_unsorted_statement : Prop :=
 Theorem C12_child_edges_unsorted_refuted : ~ C12_child_edges_unsorted_statement.
 Proof. exact child_edges_unsorted_refuted. Qed.
 Print Assumptions C12_child_edges_unsorted_refuted.
+
+(* the table shown instead of an oversized graph: its rows are a function of the set of neighbours
+   (stable sort by label of the identifier-ordered edge list) ... *)
+Theorem C12_table_rows_sorted : forall neighbours pi1 pi2,
+  NoDup (map fst neighbours) ->
+  is_perm pi1 (length neighbours) -> is_perm pi2 (length neighbours) ->
+  emit_table_rows neighbours pi1 = emit_table_rows neighbours pi2.
+Proof. exact table_rows_sorted. Qed.
+Print Assumptions C12_table_rows_sorted.
+
+(* ... which sorting the set by label alone would not be *)
+Theorem C12_table_rows_from_set_refuted :
+  exists neighbours pi1 pi2,
+    NoDup (map fst neighbours) /\ is_perm pi1 (length neighbours) /\ is_perm pi2 (length neighbours) /\
+    emit_table_rows_from_set neighbours pi1 <> emit_table_rows_from_set neighbours pi2.
+Proof. exact table_rows_from_set_refuted. Qed.
+Print Assumptions C12_table_rows_from_set_refuted.
 
 (* what an earlier run left in the output directory does not matter *)
 Theorem C12_stale_output_irrelevant : forall out pages fs1 fs2,
